@@ -536,6 +536,9 @@ class TreeFn2(TreeFn):
             if var not in env and var not in self.vtype:
                 raise Unsupported("assignment to %s" % var)
             x = val()
+            if re.match(r"^[A-Za-z_][A-Za-z0-9_]*$", x):
+                env[var] = x            # a copy: no new name
+                return
             n = self.fresh(var)
             lets.append((n, x, None))
             env[var] = n
@@ -837,6 +840,9 @@ class TreeFn2(TreeFn):
                     return self.cat(lets, self.seq([fake] + rest, env, kont, esc))
                 x = self.int_of_cond(init, env) if self.vtype[nm] == "Int" else self.expr(init, env)
                 lets += self.take()
+                if re.match(r"^[A-Za-z_][A-Za-z0-9_]*$", x):
+                    env[nm] = x         # a copy: no new name
+                    continue
                 n = self.fresh(nm)
                 lets.append((n, x, None))
                 env[nm] = n
@@ -889,7 +895,7 @@ class TreeFn2(TreeFn):
                     inner = self.seq(rest, env, kont, esc)
                     inner = self.cat(post, inner)
                 if tail_b:
-                    return Block(lets, ("match", tail_b[0], tail_b[1], inner))
+                    return self.mk_match(lets, tail_b[0], tail_b[1], inner)
                 return self.cat(lets, inner)
             if k == "BinaryOperator" and s["opcode"] == "=":
                 lhs, rhs = s["inner"]
@@ -969,7 +975,7 @@ class TreeFn2(TreeFn):
                         n = self.fresh(self.base_name(v))
                         env[v] = n
                         names.append(n)
-                    return Block(lets, ("match", j, tup(names), self.seq(rest, env, kont, esc)))
+                    return self.mk_match(lets, j, tup(names), self.seq(rest, env, kont, esc))
                 # pure: one `if` per assigned variable
                 envT, envE = dict(env), dict(env)
                 cap = lambda e_: Block([], ("res", "_"))    # noqa: E731
@@ -992,6 +998,13 @@ class TreeFn2(TreeFn):
     @staticmethod
     def cat(lets, b):
         return Block(lets + b.lets, b.tail)
+
+    @staticmethod
+    def mk_match(lets, scrut, pat, inner):
+        """`match s with | none => none | some p => some p` is `s`"""
+        if not inner.lets and inner.tail == ("res", "some " + pat) and "_" not in re.findall(r"[A-Za-z_][A-Za-z0-9_]*", pat):
+            return Block(lets, ("res", scrut))
+        return Block(lets, ("match", scrut, pat, inner))
 
     def base_name(self, v):
         if v == "visit_st":
@@ -1046,7 +1059,7 @@ class TreeFn2(TreeFn):
             n = self.fresh(self.base_name(v))
             env[v] = n
             names.append(n)
-        return Block([], ("match", call, tup(names), self.seq(rest, env, kont, esc)))
+        return self.mk_match([], call, tup(names), self.seq(rest, env, kont, esc))
 
     def make_loop(self, s, env):
         cond, body = s["inner"][0], s["inner"][1]
@@ -1246,6 +1259,9 @@ def translate(repo):
                 report[name] = "translated"
             except Unsupported as e:
                 report[name] = "not translated: %s" % e
+            except (KeyError, IndexError, TypeError, AttributeError, ValueError) as e:
+                # an AST shape the translator was not written for: same outcome as Unsupported
+                report[name] = "not translated: unexpected AST shape (%s: %s)" % (type(e).__name__, e)
     out = ("-- GENERATED by tools/c2lean_tree.py from /repo's src/bintree.c and src/rbtree.c on every check run; do not edit.\n"
            "import Cstl.TreeL.Model\nset_option linter.unusedVariables false\nnamespace Cstl.Gen.%s\n" % MODULE
            + "open Cstl.TreeL\nopen Cstl.Tree (Color)\n\n" + "\n".join(chunks) + "\nend Cstl.Gen.%s\n" % MODULE)
